@@ -328,23 +328,11 @@ void Var::operator=(const Var& v)
 		return;
 	}
 	
+	Var c(v); // copy before releasing the old value: v may be an element or property of this var
 	if(!isPod())
 		free();
-	memcpy(this, &v, sizeof(v));
-	switch(_type)
-	{
-	case STRING:
-		NEW_STRINGC(_s, v._s->length());
-		memcpy(_s->data(), v._s->data(), v._s->length());
-		break;
-	case ARRAY:
-		NEW_ARRAYC(_a, *v._a);
-		break;
-	case OBJ:
-		NEW_DICC(_o, *v._o);
-		break;
-	default: break;
-	}
+	memcpy(this, &c, sizeof(c));
+	c._type = NONE; // its content now belongs to this
 }
 
 void Var::operator=(double x)
